@@ -43,6 +43,8 @@ type Vocab struct {
 	Keys  []string
 	Words []string
 	Nums  []string // minmax-able top-level keys
+	// BigNums draws boundary-magnitude values for the indexed keys half the time.
+	BigNums bool
 }
 
 func NewVocab(r *core.Rand) *Vocab {
@@ -245,6 +247,10 @@ func (v *Vocab) Object(r *core.Rand, depth, n int) map[string]any {
 func (v *Vocab) Row(r *core.Rand, vid string) map[string]any {
 	row := v.Object(r, r.Range(0, 4), r.Range(0, 6))
 	for _, k := range v.Nums {
+		if v.BigNums && r.Bool() {
+			row[k] = Number(r)
+			continue
+		}
 		switch r.Intn(10) {
 		case 0: // absent
 			delete(row, k)
